@@ -198,3 +198,5 @@ func isColorScheme(t types.Type) bool {
 	n, ok := t.(*types.Named)
 	return ok && n.Obj().Pkg() != nil && n.Obj().Pkg().Path() == modPath && n.Obj().Name() == "ColorScheme"
 }
+
+const tokenGEQ = token.GEQ
